@@ -10,7 +10,7 @@ cd "$W" || exit 2
 git diff > "$OUT/patch.diff"
 [ -s "$OUT/patch.diff" ] || { echo "empty patch"; exit 2; }
 cp "demo_$ID.py" "$OUT/demo.py"
-run_demo() { NUMBA_CACHE_DIR=$(mktemp -d /var/tmp/nbc.XXXXXX) PYTHONPATH="$W" timeout 900 /venv/bin/python -W ignore "demo_$ID.py" > "$1" 2>&1; local rc=$?; rm -rf /var/tmp/nbc.*; return $rc; }
+run_demo() { local nb; nb=$(mktemp -d /var/tmp/nbc.XXXXXX); NUMBA_CACHE_DIR=$nb PYTHONPATH="$W" timeout 900 /venv/bin/python -W ignore "demo_$ID.py" > "$1" 2>&1; local rc=$?; rm -rf "$nb"; return $rc; }
 run_demo /tmp/demo_with.$$; WITH=$?
 git apply -R "$OUT/patch.diff"
 run_demo /tmp/demo_without.$$; WITHOUT=$?
